@@ -172,6 +172,25 @@ example :
     (S.out s (AxlM.idle, WbS.idle)).1.rvalid = true ∧ (S.out s (AxlM.idle, WbS.idle)).1.rresp = respOkay := by
   decide
 
+/-- Why `reqHeld` (a presented W is held until taken — AXI A3.2.1) is an assumption of every theorem about
+    `AXILite2Wishbone`, not a finding: a master that WITHDRAWS `w.valid` in the cycle a registered-ack Wishbone slave
+    (`wishbone.SRAM`) acknowledges sees `aw.ready ∧ w.ready` with `w.valid = 0` — the address is consumed without its
+    data (behind `AXI2AXILite` the W beats then pair with the wrong AW beats and the last one is never accepted: the
+    hang the C10 builder's first driver ran into).  The run violates `reqHeld` in its third cycle. -/
+example :
+    let c : A2WCfg := { aw := 32, nb := 4, shift := 2, base := 0 }
+    let S := Axl2Wb.osys c
+    let aww : AxlM := { AxlM.idle with awvalid := true, awaddr := 0x10, wvalid := true, wdata := 7, wstrb := 15 }
+    let awo : AxlM := { aww with wvalid := false }
+    let s := S.runFrom S.init [(aww, WbS.idle), (aww, WbS.idle)]
+    let o := S.out s (awo, { ack := true, datr := 0, err := false })
+    (S.out s (aww, WbS.idle)).2.stb = true ∧ o.1.awready = true ∧ o.1.wready = true ∧
+    (S.next s (awo, { ack := true, datr := 0, err := false })).br.st = .sendB ∧ ¬ s.g.reqHeld awo := by
+  refine ⟨by decide, by decide, by decide, by decide, ?_⟩
+  intro h
+  have := (h.2.1 (7, 15) (by decide)).1
+  exact absurd this (by decide)
+
 end Axl2WbThms
 
 /-! ## Wishbone2AXILite -/
